@@ -158,6 +158,9 @@ impl ResumableSession {
 /// whose peer we have not spoken to for the longest.
 pub struct ResumableSessions {
     records: Vec<ResumableSession, MAX_RESUMPTION_RECORDS>,
+    /// The last attempt to store the cache failed: the STORED blob might still hold
+    /// records which the cache has dropped since (see `MatterState::store_resumption`).
+    store_failed: bool,
 }
 
 impl ResumableSessions {
@@ -166,6 +169,7 @@ impl ResumableSessions {
     pub const fn new() -> Self {
         Self {
             records: Vec::new(),
+            store_failed: false,
         }
     }
 
@@ -173,6 +177,7 @@ impl ResumableSessions {
     pub fn init() -> impl Init<Self> {
         init!(Self {
             records <- Vec::init(),
+            store_failed: false,
         })
     }
 
@@ -194,6 +199,18 @@ impl ResumableSessions {
     /// Drop every record — in memory only, does not touch storage.
     pub fn reset(&mut self) {
         self.records.clear();
+        self.store_failed = false;
+    }
+
+    /// Whether the last attempt to store the cache failed, i.e. the stored blob
+    /// might hold records which are not in the cache any more.
+    pub(crate) fn store_failed(&self) -> bool {
+        self.store_failed
+    }
+
+    /// Remember the outcome of an attempt to store the cache.
+    pub(crate) fn set_store_failed(&mut self, store_failed: bool) {
+        self.store_failed = store_failed;
     }
 
     /// Look up a record by its resumption ID. Used by the responder on
